@@ -68,7 +68,11 @@ def placement_json(pl, vidx, n):
 
 
 def gen_problem(rng, easy, chk):
-    w, h = rng.randint(1, chk.pick(4, 6)), rng.randint(1, chk.pick(4, 6))
+    # sizes around powers of two matter to the space-filling-curve placers
+    dims = (1, 2, 3, 4, 5, 5) if chk.quick else (1, 2, 3, 4, 5, 6, 7)
+    w, h = rng.choice(dims), rng.choice(dims)
+    if easy and rng.random() < 0.08:
+        w, h = rng.choice(((9, 2), (3, 10), (11, 1), (6, 9), (17, 1)))
     nres = 1 if easy else rng.choice((1, 2, 2, 3))
     resources = {RES[i]: rng.randint(1, 6) for i in range(nres)}
     dead = set()
